@@ -82,6 +82,8 @@ class Via:
         self._run, self._tag, self._keep = run, tag, keep
         self.prog, self.tier, self.selftest = run.prog, run.tier, run.selftest
         self.extra = {}
+        self.analysed = {}
+        self.prop = run.prop
         self.n = 0
 
     def ob(self, rule, key, ok, where, what, detail="", mech=""):
@@ -106,7 +108,8 @@ class Via:
 def _keep13(rule, key):
     if rule in ("R1-provenance", "R2-group-role"):
         return True
-    return rule == "R3-acceptance" and (key.endswith("/contains-documented") or "/call-form#" in key or key.endswith("/guarded-text-is-clean"))
+    return rule == "R3-acceptance" and (key.endswith("/contains-documented") or "/call-form#" in key or key.endswith("/guarded-text-is-clean") or
+                                        "/unit-matched-whole" in key)
 
 
 def _keep14(rule, key):
@@ -133,7 +136,7 @@ def _keep19(rule, key):
     return rule == "R-tiling" and "node.Node.flatten" in key and "/case/skip/" not in key
 
 
-DELEGATED = (("C13", _keep13, 25), ("C14", _keep14, 12), ("C15", _keep15, 60), ("C16", _keep16, 11), ("C19", _keep19, 8))
+DELEGATED = (("C13", _keep13, 27), ("C14", _keep14, 12), ("C15", _keep15, 60), ("C16", _keep16, 11), ("C19", _keep19, 8))
 
 
 def check(run):
